@@ -761,7 +761,13 @@ class DataAccessObject(HasGeneric[T]):
         kwargs: Dict[str, Any] = {}
         for column in mapper.columns:
             if column.name in argument_names and is_data_column(column):
-                kwargs[column.name] = getattr(self, column.name)
+                value = getattr(self, column.name)
+                if isinstance(value, list):
+                    # a collection of builtins is a JSON array in the database whatever the class declares
+                    value = declared_collection(
+                        self.original_class(), column.name, value
+                    )
+                kwargs[column.name] = value
         return kwargs
 
     def _collect_relationship_kwargs(
